@@ -9,6 +9,7 @@ import RactorModel.Lemmas.FactoryHooks
 import RactorModel.Lemmas.FactoryActors
 import RactorModel.Lemmas.FactoryLimitRun
 import RactorModel.Lemmas.FactoryLimitChange
+import RactorModel.Lemmas.FactoryLimitHigh
 import RactorModel.Lemmas.FactoryWorkerLimit
 
 /-!
@@ -704,6 +705,21 @@ example : (((init lowerCase).runSteps (lowerStepsNewest.take 5)).queue.map (·.i
     (((init lowerCase).runSteps lowerStepsNewest).queue.map (·.id)) = [10] := by decide +kernel
 
 
+open Factory in
+/-- (limit, run level, settings changed ARBITRARILY often — high-water mark) For every case whose initial limit is `≤ H` and
+EVERY op sequence in which every settings update configures some limit `≤ H` (either mode, raised and lowered at will, never
+switched off): at every quiescent point the factory queue holds at most `H` discardable jobs — both queue types, every
+router, with or without limiter. With `queue_limit_*_after_change` for what a single change does. -/
+theorem queue_high_water_mark_run (c : CaseCfg) (H : Nat) (hd : okD H c.disc = true) (steps : List Step)
+    (hk : steps.all (fun s => s.op.limitsWithin H) = true) :
+    (((init c).runSteps steps).queue.filter (discardable ((init c).runSteps steps).cfg)).length ≤ H :=
+  (hw_always c hd steps hk).bound
+
+open Factory in
+/-- non-vacuity: `lowerCase` (limit 1, lowered to 0 on the way) satisfies the hypotheses with `H = 1` -/
+example : okD 1 lowerCase.disc = true ∧ lowerSteps.all (fun s => s.op.limitsWithin 1) = true := by decide
+
+
 end C15
 
 #print axioms C15.bucket_balance_le_max
@@ -751,3 +767,4 @@ end C15
 #print axioms C15.queue_limit_oldest_after_change
 #print axioms C15.queue_limit_newest_after_change
 #print axioms C15.queue_bounded_oldest_after_change
+#print axioms C15.queue_high_water_mark_run
